@@ -75,6 +75,7 @@ func (fc *FuncCtx) assign(st *State, lhs ast.Expr, v Term) {
 			}
 			s := fc.reg().SortOf(base.T)
 			fc.oblige(st, "panic.nilmap", "", not("(isnil_"+s+" "+base.S+")"), x, "assignment to entry in possibly nil map "+exprStr(x.X))
+			fc.lockCheck(st, x.X, "W", x)
 			v = fc.convertImplicit(st, v, u.Elem())
 			dom, val, size := "(dom_"+s+" "+base.S+")", "(val_"+s+" "+base.S+")", "(size_"+s+" "+base.S+")"
 			nsize := ite("(select "+dom+" "+k.S+")", size, "(+ "+size+" 1)")
